@@ -811,3 +811,184 @@ Lemma unspecified_not_defined_refuted :
   ci_distinct (map fst item) = false /\ In [112;111;115;116]%N (unspecified_methods fs_empty item) /\
   In [112;111;115;116]%N (map fst item) /\ is_http_method [112;111;115;116]%N = true.
 Proof. vm_compute. repeat split; auto. Qed.
+
+(* ------------------------------------------------------------------------------------------------ *)
+(* derivation histories: the object graph refines the value semantics                                *)
+Lemma length_upd {A} i (v : A) l : length (upd i v l) = length l.
+Proof. revert i; induction l as [|x r IH]; intros [|i]; cbn; try reflexivity. rewrite IH. reflexivity. Qed.
+
+Lemma nth_upd_same {A} i (v d : A) l : i < length l -> nth i (upd i v l) d = v.
+Proof.
+  revert i; induction l as [|x r IH]; intros [|i] H; cbn in *; try lia; [reflexivity|]. apply IH. lia.
+Qed.
+
+Lemma nth_upd_other {A} i j (v d : A) l : i <> j -> nth j (upd i v l) d = nth j l d.
+Proof.
+  revert i j; induction l as [|x r IH]; intros [|i] [|j] H; cbn; try reflexivity; try congruence.
+  apply IH. congruence.
+Qed.
+
+Lemma map_upd {A B} (f : A -> B) i v l : map f (upd i v l) = upd i (f v) (map f l).
+Proof. revert i; induction l as [|x r IH]; intros [|i]; cbn; try reflexivity. rewrite IH. reflexivity. Qed.
+
+Lemma Forall_upd {A} (P : A -> Prop) i v l : Forall P l -> P v -> Forall P (upd i v l).
+Proof.
+  revert i; induction l as [|x r IH]; intros [|i] Hl Hv; cbn; try assumption.
+  - inversion Hl; subst. constructor; assumption.
+  - inversion Hl; subst. constructor; [assumption | apply IH; assumption].
+Qed.
+
+Lemma nth_error_map' {A B} (f : A -> B) l n : nth_error (map f l) n = option_map f (nth_error l n).
+Proof. revert n; induction l as [|x r IH]; intros [|n]; cbn; try reflexivity. apply IH. Qed.
+
+Lemma heap_add_spec inc a ri re cells cells' ok :
+  ri < length cells -> re < length cells -> ri <> re ->
+  heap_add inc a (ri, re) cells = (cells', ok) ->
+  length cells' = length cells /\
+  (forall j, j <> ri -> j <> re -> cell cells' j = cell cells j) /\
+  match add_filter inc a (deref cells (ri, re)) with
+  | Added fs' => ok = true /\ deref cells' (ri, re) = fs'
+  | Rejected _ => ok = false /\ cells' = cells
+  end.
+Proof.
+  intros Hi He Hne. unfold heap_add. destruct (add_filter inc a (deref cells (ri, re))) as [fs'|e]; intros H; inversion H; subst; clear H.
+  - cbn [fst snd]. split; [rewrite !length_upd; reflexivity|]. split.
+    + intros j Hj1 Hj2. unfold cell. rewrite !nth_upd_other by congruence. reflexivity.
+    + split; [reflexivity|]. unfold deref, cell. cbn [fst snd].
+      rewrite nth_upd_other by congruence. rewrite nth_upd_same by exact Hi.
+      rewrite nth_upd_same by (rewrite length_upd; exact He). destruct fs'; reflexivity.
+  - repeat split; reflexivity.
+Qed.
+
+Lemma heap_call_spec c ri re cells cells' ok :
+  ri < length cells -> re < length cells -> ri <> re ->
+  heap_call c (ri, re) cells = (cells', ok) ->
+  length cells' = length cells /\
+  (forall j, j <> ri -> j <> re -> cell cells' j = cell cells j) /\
+  match apply_call c (deref cells (ri, re)) with
+  | Added fs' => ok = true /\ deref cells' (ri, re) = fs'
+  | Rejected _ => ok = false
+  end.
+Proof.
+  intros Hi He Hne. destruct c as [a|a dep]; cbn [heap_call apply_call]; unfold schema_include, schema_exclude.
+  - intros H. destruct (heap_add_spec _ _ _ _ _ _ _ Hi He Hne H) as [L [U R]]. repeat split; try assumption.
+    destruct (add_filter true a (deref cells (ri, re))); tauto.
+  - destruct dep; [destruct (a_func a) as [f|]|].
+    + destruct (heap_add false (only_func is_deprecated_id is_deprecated) (ri, re) cells) as [cells1 ok1] eqn:E1.
+      destruct (heap_add_spec _ _ _ _ _ _ _ Hi He Hne E1) as [L1 [U1 R1]].
+      destruct (add_filter false (only_func is_deprecated_id is_deprecated) (deref cells (ri, re))) as [fs1|e1].
+      * destruct R1 as [-> D1]. intros H.
+        assert (Hi1 : ri < length cells1) by (rewrite L1; exact Hi).
+        assert (He1 : re < length cells1) by (rewrite L1; exact He).
+        destruct (heap_add_spec _ _ _ _ _ _ _ Hi1 He1 Hne H) as [L2 [U2 R2]]. rewrite D1 in R2.
+        split; [congruence|]. split; [intros j J1 J2; rewrite (U2 j J1 J2); apply U1; assumption|].
+        destruct (add_filter false a fs1); tauto.
+      * destruct R1 as [-> ->]. intros H. inversion H; subst. repeat split; reflexivity.
+    + intros H. destruct (heap_add_spec _ _ _ _ _ _ _ Hi He Hne H) as [L [U R]]. repeat split; try assumption.
+      destruct (add_filter false (with_func a is_deprecated_id is_deprecated) (deref cells (ri, re))); tauto.
+    + intros H. destruct (heap_add_spec _ _ _ _ _ _ _ Hi He Hne H) as [L [U R]]. repeat split; try assumption.
+      destruct (add_filter false a (deref cells (ri, re))); tauto.
+Qed.
+
+Definition bounded (st : hstate) : Prop :=
+  Forall (fun hn => n_inc hn < length (h_cells st) /\ n_exc hn < length (h_cells st)) (h_nodes st).
+
+Lemma heap_step_refines d st e :
+  bounded st ->
+  heap_abs (heap_step false d st e) = value_step d (heap_abs st) e /\ bounded (heap_step false d st e).
+Proof.
+  intros Hb. destruct e as [p c|n]; cbn [heap_step value_step].
+  - unfold heap_abs at 2. rewrite nth_error_map'. destruct (nth_error (h_nodes st) p) as [pn|] eqn:Ep; cbn [option_map]; [|split; [reflexivity | exact Hb]].
+    assert (Hp : n_inc pn < length (h_cells st) /\ n_exc pn < length (h_cells st)).
+    { unfold bounded in Hb. rewrite Forall_forall in Hb. apply Hb. eapply nth_error_In. exact Ep. }
+    destruct Hp as [Hpi Hpe]. cbn [heap_clone node_refs fst snd v_fs].
+    set (L := length (h_cells st)).
+    set (cells1 := h_cells st ++ [cell (h_cells st) (n_inc pn); cell (h_cells st) (n_exc pn)]).
+    assert (HL1 : length cells1 = S (S L)) by (unfold cells1; rewrite app_length; cbn; fold L; lia).
+    assert (Hd1 : deref cells1 (L, S L) = deref (h_cells st) (n_inc pn, n_exc pn)).
+    { unfold deref, cell, cells1. cbn [fst snd]. rewrite !app_nth2 by (fold L; lia). fold L.
+      replace (L - L) with 0 by lia. replace (S L - L) with 1 by lia. reflexivity. }
+    destruct (heap_call c (L, S L) cells1) as [cells2 ok] eqn:Ec.
+    assert (H1 : L < length cells1) by lia. assert (H2 : S L < length cells1) by lia. assert (H3 : L <> S L) by lia.
+    destruct (heap_call_spec _ _ _ _ _ _ H1 H2 H3 Ec) as [L2 [U2 R2]]. rewrite Hd1 in R2.
+    assert (Hold : forall hn, In hn (h_nodes st) -> deref cells2 (node_refs hn) = deref (h_cells st) (node_refs hn)).
+    { intros hn Hin. unfold bounded in Hb. rewrite Forall_forall in Hb. destruct (Hb hn Hin) as [B1 B2]. fold L in B1, B2.
+      unfold deref, node_refs. cbn [fst snd]. rewrite !U2 by lia. unfold cell, cells1. rewrite !app_nth1 by (fold L; lia). reflexivity. }
+    assert (Hmap : map (fun hn => {| v_fs := deref cells2 (node_refs hn); v_stat := n_stat hn |}) (h_nodes st) = heap_abs st).
+    { unfold heap_abs. apply map_ext_in. intros hn Hin. rewrite (Hold hn Hin). reflexivity. }
+    assert (Hbold : Forall (fun hn => n_inc hn < length cells2 /\ n_exc hn < length cells2) (h_nodes st)).
+    { unfold bounded in Hb. rewrite Forall_forall in *. intros hn Hin. destruct (Hb hn Hin). fold L in H, H0. lia. }
+    cbn [fst snd]. unfold node_refs in *.
+    destruct (apply_call c (deref (h_cells st) (n_inc pn, n_exc pn))) as [fs'|err].
+    + destruct R2 as [-> D2]. split.
+      * unfold heap_abs at 1. cbn [h_cells h_nodes]. rewrite map_app. cbn [map]. unfold node_refs at 1 2.
+        rewrite Hmap. cbn [n_inc n_exc n_stat]. rewrite D2. reflexivity.
+      * unfold bounded. cbn [h_cells h_nodes]. apply Forall_app. split; [exact Hbold|]. constructor; [|constructor]. cbn. lia.
+    + subst ok. split; [unfold heap_abs at 1; cbn [h_cells h_nodes]; unfold node_refs; exact Hmap | unfold bounded; cbn [h_cells h_nodes]; exact Hbold].
+  - unfold heap_abs at 2. rewrite nth_error_map'. destruct (nth_error (h_nodes st) n) as [hn|] eqn:En; cbn [option_map]; [|split; [reflexivity | exact Hb]].
+    cbn [v_stat]. destruct (n_stat hn) as [s|] eqn:Es; [split; [reflexivity | exact Hb]|].
+    split.
+    + unfold heap_abs. cbn [h_cells h_nodes]. rewrite map_upd. cbn [v_fs node_refs n_inc n_exc n_stat]. reflexivity.
+    + unfold bounded in *. cbn [h_cells h_nodes]. apply Forall_upd; [exact Hb|]. cbn [n_inc n_exc].
+      rewrite Forall_forall in Hb. apply Hb. eapply nth_error_In. exact En.
+Qed.
+
+Lemma heap_run_refines d es : forall st,
+  bounded st -> heap_abs (fold_left (heap_step false d) es st) = fold_left (value_step d) es (heap_abs st).
+Proof.
+  induction es as [|e es IH]; intros st Hb; cbn [fold_left]; [reflexivity|].
+  destruct (heap_step_refines d st e Hb) as [Ha Hb']. rewrite (IH _ Hb'), Ha. reflexivity.
+Qed.
+
+(* every schema of every derivation history behaves as if it owned its filter set: the object graph built by
+   include / exclude / statistic in any order and on any nodes is indistinguishable from value semantics *)
+Lemma derived_schema_independent d es : heap_abs (heap_run false d es) = value_run d es.
+Proof.
+  unfold heap_run, value_run. rewrite heap_run_refines; [reflexivity|].
+  unfold bounded, heap_init. cbn. repeat constructor.
+Qed.
+
+(* ... in which a cached statistic is never stale *)
+Definition stat_fresh (d : doc) (vn : vnode) : Prop :=
+  v_stat vn = None \/ v_stat vn = Some (measure_statistic (v_fs vn) d).
+
+Lemma value_step_fresh d st e : Forall (stat_fresh d) st -> Forall (stat_fresh d) (value_step d st e).
+Proof.
+  intros H. destruct e as [p c|n]; cbn [value_step].
+  - destruct (nth_error st p) as [pn|]; [|exact H]. destruct (apply_call c (v_fs pn)); [|exact H].
+    apply Forall_app. split; [exact H|]. constructor; [left; reflexivity | constructor].
+  - destruct (nth_error st n) as [vn|]; [|exact H]. destruct (v_stat vn); [exact H|].
+    apply Forall_upd; [exact H | right; reflexivity].
+Qed.
+
+Lemma cached_statistic_fresh d es : Forall (stat_fresh d) (heap_abs (heap_run false d es)).
+Proof.
+  rewrite derived_schema_independent. unfold value_run.
+  assert (G : forall st, Forall (stat_fresh d) st -> Forall (stat_fresh d) (fold_left (value_step d) es st)).
+  { induction es as [|e es IH]; intros st H; cbn [fold_left]; [exact H|]. apply IH. apply value_step_fresh. exact H. }
+  apply G. constructor; [left; reflexivity | constructor].
+Qed.
+
+(* a derived node carries exactly what its parent had plus the one call *)
+Lemma value_derive d st p c pn fs' :
+  nth_error st p = Some pn -> apply_call c (v_fs pn) = Added fs' ->
+  value_step d st (EDerive p c) = st ++ [{| v_fs := fs'; v_stat := None |}].
+Proof. intros H1 H2. cbn [value_step]. rewrite H1, H2. reflexivity. Qed.
+
+(* sentinel: with clone passing the parent's sets on, a child derived from a filtered schema changes its parent *)
+Definition w_tag (t : str) : add_args :=
+  {| a_func := None; a_name := no_arg; a_method := no_arg; a_path := no_arg;
+     a_tag := {| aa_expected := Some (FStr t); aa_regex := None |}; a_operation_id := no_arg |}.
+Definition w_history : list event :=
+  [EDerive 0 (CInclude (w_tag [116;49]%N)); EStat 1; EDerive 1 (CInclude (w_tag [116;50]%N))].
+Definition w_hist_doc : doc :=
+  let od (t : str) := {| od_raw := JObj [(s_tags, JArr [JStr t])]; od_resolved := JObj [(s_tags, JArr [JStr t])] |} in
+  [([47;97]%N, [([103;101;116]%N, od [116;49]%N)]); ([47;98]%N, [([103;101;116]%N, od [116;50]%N)])].
+
+Lemma shared_clone_not_independent :
+  map (observe_node w_hist_doc) (heap_abs (heap_run true w_hist_doc w_history)) <>
+  map (observe_node w_hist_doc) (value_run w_hist_doc w_history) /\
+  map (observe_node w_hist_doc) (heap_abs (heap_run false w_hist_doc w_history)) =
+  map (observe_node w_hist_doc) (value_run w_hist_doc w_history) /\
+  length (value_run w_hist_doc w_history) = 3.
+Proof. split; [vm_compute; discriminate | split; vm_compute; reflexivity]. Qed.
